@@ -88,11 +88,14 @@ def eval_unit(ctx, cases):
     v.append('Definition U3 := Eval vm_compute in failing fcmr_agrees 0 fcmrs.')
     v.append('Definition U4 := Eval vm_compute in failing fcmr_meets_spec 0 fcmrs.')
     v.append('Definition U5 := Eval vm_compute in failing cleanup_agrees 0 cleans.')
-    v.append('Print U1. Print U2. Print U3. Print U4. Print U5.')
+    v.append('Definition U6 := Eval vm_compute in length (filter fcmr_in_domain fcmrs).')
+    v.append('Print U1. Print U2. Print U3. Print U4. Print U5. Print U6.')
     rc, out = vlib.coq_eval(ctx, 'Cases_C13_unit', '\n'.join(v))
     if rc != 0:
         raise RuntimeError('unit case evaluation failed:\n' + out[-3000:])
     res = {k: vlib.parse_nat_list(out, k) for k in ('U1', 'U2', 'U3', 'U4', 'U5')}
+    m6 = re.search(r'U6 = (\d+)', out)
+    res['fcmr_in_domain'] = int(m6.group(1)) if m6 else 0
     return cands, seqs, fcmrs, cleans, res
 
 
@@ -159,7 +162,8 @@ def classify(r):
     return 'OutOther'
 
 
-def ws_term(r):
+def ws_term(r, classify_fn=None):
+    classify_fn = classify_fn or classify
     ws = r['ws']
     ids, lint = content_ids(ws)
     roots = []
@@ -172,7 +176,7 @@ def ws_term(r):
     return ('{| w_policy := %s; w_dry := %s; w_files := %s; w_dirs := %s; w_sel := %s; w_roots := %s; w_lint := %s; '
             'w_out := %s; w_after_files := %s; w_after_dirs := %s |}') % (
         POL[ws['policy']], cbool(ws['dry_run']), cmap(snap_ids(r['before'], ids)), cstrs(npath(d) for d in r['before']['dirs']),
-        cstrs(npath(x) for x in selected(ws)), cstrs(roots), lint_t, classify(r) if classify(r) != 'OutOther' else 'OutOutOfFuel',
+        cstrs(npath(x) for x in selected(ws)), cstrs(roots), lint_t, classify_fn(r) if classify_fn(r) != 'OutOther' else 'OutOutOfFuel',
         cmap(snap_ids(r['after'], ids)), cstrs(npath(d) for d in r['after']['dirs']))
 
 
@@ -221,7 +225,7 @@ def predicate(r):
     cls = classify(r)
     if ws['dry_run'] and before != after:
         bad.append(('dry-run-changed-disk', ''))
-    if r['exit'] != 0 and before != after:
+    if r['exit'] != 0 and (before['files'] != after['files'] or (cls == 'OutConflicts' and before != after)):
         bad.append(('failed-but-changed-disk', cls))
     if cls == 'OutOther':
         bad.append(('unexpected-failure', r['stderr'][:300]))
@@ -256,7 +260,9 @@ def predicate(r):
         for rel in rels:
             if rel != o:
                 sr = spec_root(ws, o)
-                if sr is not None and not contains(sr, rel):
+                if sr is None:      # below no declared root: the file's own directory is taken as the root
+                    sr = o.rsplit('/', 1)[0] if '/' in o else ''
+                if not contains(sr, rel):
                     bad.append(('moved-out-of-root', '%s -> %s (root %s)' % (o, rel, sr or '.')))
     # directories: none that still is (an ancestor of) a declared root disappears
     for d in before['dirs']:
@@ -265,5 +271,156 @@ def predicate(r):
     return bad
 
 
+CORPUS = os.path.join(vlib.VERIF, 'corpus', 'C13')
+
+
+def run_ws(ctx, h, regal, replay_ws=None, tag=''):
+    wd = os.path.join(ctx.tmp, 'ws13' + tag)
+    os.makedirs(wd, exist_ok=True)
+    out = os.path.join(ctx.tmp, 'c13_ws%s.jsonl' % tag)
+    env = dict(os.environ, VERIF_SEED=str(ctx.seed))
+    if replay_ws is not None:
+        cf = os.path.join(ctx.tmp, 'c13_replay_case%s.json' % tag)
+        json.dump(replay_ws, open(cf, 'w'))
+        rc, log = vlib.run([h, 'replay', out, cf, wd, regal], env=env, timeout=900)
+    else:
+        rc, log = vlib.run([h, 'gen', out, ctx.tier, wd, regal, CORPUS], env=env, timeout=3000)
+    if rc != 0:
+        raise RuntimeError('c13 harness failed: ' + log[-2000:])
+    return [json.loads(l) for l in open(out)]
+
+
+def shrink(ctx, h, regal, r, kind):
+    """greedy: drop files / declarations of the workspace while the same predicate still fails"""
+    ws = json.loads(json.dumps(r['ws']))
+    best = r
+    n = 0
+
+    def still(cand):
+        nonlocal n
+        n += 1
+        rs = run_ws(ctx, h, regal, cand, tag='_s%d' % n)
+        return rs[0] if any(k == kind for k, _ in predicate(rs[0])) else None
+    changed = True
+    while changed and n < 14:
+        changed = False
+        for key in ('files', 'others', 'empty_dirs', 'manifests', 'cfg_roots'):
+            for i in range(len(ws.get(key) or [])):
+                cand = json.loads(json.dumps(ws))
+                del cand[key][i]
+                if key == 'files' and not cand['files']:
+                    continue
+                got = still(cand)
+                if got is not None:
+                    ws, best, changed = cand, got, True
+                    break
+            if changed:
+                break
+    return best
+
+
+def sig_key(r, kind):
+    ws = r['ws']
+    return json.dumps({'files': [[f['path'], f['pkg']] for f in ws['files'] or []], 'others': ws.get('others') or [],
+                       'regal_dirs': ws.get('regal_dirs') or [], 'cfg_roots': ws.get('cfg_roots') or [], 'manifests': ws.get('manifests') or [],
+                       'args': ws['args'], 'ignore': ws.get('ignore') or '', 'policy': ws['policy']}, sort_keys=True)
+
+
 def run(ctx):
-    raise NotImplementedError
+    from concurrent.futures import ThreadPoolExecutor
+    h = vlib.build_harness(ctx, 'c13')
+    regal = vlib.build_regal(ctx)
+    replay_ws = None
+    if ctx.replay:
+        rp = json.load(open(ctx.replay))
+        replay_ws = (rp.get('case') or {}).get('ws')
+
+    def unit_part():
+        cases = run_overlays(ctx)
+        return eval_unit(ctx, cases)
+
+    def ws_part():
+        results = run_ws(ctx, h, regal, replay_ws)
+        w1, w2 = eval_ws(ctx, results)
+        return results, w1, w2
+    with ThreadPoolExecutor(max_workers=2) as ex:
+        fu = ex.submit(unit_part)
+        fw = ex.submit(ws_part)
+        cands, seqs, fcmrs, cleans, ures = fu.result()
+        results, w1, leaves = fw.result()
+
+    # ---- verdicts: first the property on the implementation's own outputs
+    pred_hits, reported = {}, 0
+    for r in results:
+        hits = predicate(r)
+        for kind, detail in hits:
+            pred_hits[kind] = pred_hits.get(kind, 0) + 1
+        if hits and reported < 2:
+            kind = hits[0][0]
+            small = shrink(ctx, h, regal, r, kind) if not ctx.replay else r
+            hs = [x for x in predicate(small) if x[0] == kind] or hits
+            vlib.violation(ctx, {'kind': kind, 'detail': hs[0][1], 'case': {'ws': small['ws']}, 'cmd': small['cmd'], 'exit': small['exit'],
+                                 'stderr': small['stderr'][:400], 'before': small['before'], 'after': small['after'],
+                                 'what': 'regal fix --force: ' + kind + ' ' + hs[0][1]},
+                           signature={'kind': kind, 'key': sig_key(small, kind)})
+            reported += 1
+    for c in seqs:
+        if c['status'] == 'hang':
+            vlib.violation(ctx, {'kind': 'rename-loop-does-not-terminate', 'case': {'seq': c},
+                                 'what': 'Fixer.handleRename did not return within 10 s on this provider and operation sequence (policy %s)' % c['policy']},
+                           signature={'kind': 'rename-loop-does-not-terminate', 'key': json.dumps([c['init'], c['ops']], sort_keys=True)})
+            break
+    for i in ures['U4'][:1]:
+        c = fcmrs[i]
+        vlib.violation(ctx, {'kind': 'closest-root-not-an-ancestor', 'case': {'fcmr': c},
+                             'what': 'FindClosestMatchingRoot(%r, %r) = %r' % (c['path'], c['roots'], c['got'])},
+                       signature={'kind': 'closest-root-not-an-ancestor', 'key': json.dumps([c['path'], c['roots']])})
+    # ---- then the correspondence
+    rel = [('U1', 'Check.C13Check.cand_agrees (Model.Rename.rename_candidate vs renameCandidate)', cands),
+           ('U2', 'Check.C13Check.seq_agrees (Model.Provider / handle_rename vs InMemoryFileProvider / handleRename)', seqs),
+           ('U3', 'Check.C13Check.fcmr_agrees (find_closest_matching_root vs FindClosestMatchingRoot)', fcmrs),
+           ('U5', 'Check.C13Check.cleanup_agrees (dir_cleanup_paths vs DirCleanUpPaths)', cleans)]
+    for key, name, lst in rel:
+        if ures[key] and not ctx.violations:
+            c = lst[ures[key][0]]
+            if key == 'U1':
+                c = {'in': b64(c['in']).decode('latin-1'), 'out': b64(c['out']).decode('latin-1')}
+            vlib.violation(ctx, {'kind': 'correspondence', 'relation': name, 'case': c, 'n_mismatches': len(ures[key])}, no_input=True)
+    if w1 and not ctx.violations:
+        r = results[w1[0]]
+        vlib.violation(ctx, {'kind': 'correspondence', 'relation': 'Check.C13Check.ws_agrees (fix_loop + finish_command vs the regal binary)',
+                             'case': {'ws': r['ws']}, 'cmd': r['cmd'], 'exit': r['exit'], 'stderr': r['stderr'][:300], 'roots': r['roots'],
+                             'before': r['before'], 'after': r['after'], 'n_mismatches': len(w1)}, no_input=True)
+    proof_gate(ctx)
+
+    moved = sum(1 for r in results if r['before']['files'] != r['after']['files'])
+    hist = {}
+    for r in results:
+        k = '%s|%s%s' % (classify(r), r['ws']['policy'], '|dry' if r['ws']['dry_run'] else '')
+        hist[k] = hist.get(k, 0) + 1
+    distinct = len({json.dumps(r['ws'], sort_keys=True) for r in results})
+    nontrivial = len({sig_key(r, '') + str(r['ws']['dry_run']) for r, lv in zip(results, leaves)
+                      if r['before'] != r['after'] or r['exit'] != 0 or lv > 1})
+    cov = proof_coverage(ctx, {
+        'evaluations': len(cands) + len(seqs) + len(fcmrs) + len(cleans) + len(results),
+        'distinct_nontrivial': nontrivial,
+        'rule': 'workspaces (distinct files/config/arguments/policy) run through the real binary in which something happened: the tree changed, the '
+                'command failed, or more than one violation order was possible; unit cases are counted in evaluations only',
+        'workspace_runs': len(results), 'workspaces_distinct': distinct, 'workspaces_tree_changed': moved,
+        'schedule_leaves_histogram': {str(k): leaves.count(k) for k in sorted(set(leaves))},
+        'outcome_histogram': hist, 'predicate_hits': pred_hits,
+        'unit_cases': {'rename_candidate': len(cands), 'provider_handle_rename_sequences': len(seqs), 'closest_root': len(fcmrs), 'closest_root_in_spec_domain': ures['fcmr_in_domain'], 'dir_cleanup': len(cleans)},
+        'mismatch': {'rename_candidate': len(ures['U1']), 'sequences': len(ures['U2']), 'closest_root': len(ures['U3']), 'closest_root_vs_spec': len(ures['U4']),
+                     'dir_cleanup': len(ures['U5']), 'workspaces': len(w1)},
+        'samples': [{'name': r['ws']['name'], 'cmd': r['cmd'], 'exit': r['exit'], 'before': sorted(r['before']['files']), 'after': sorted(r['after']['files'])}
+                    for r in results[:3]],
+        'exhaustive': False,
+    })
+    return vlib.finish(ctx, 'proof', cov, [
+        'Go stdlib path functions (path.Clean/Join, filepath.Dir/Base/Ext), strconv.Atoi, the regexp of renameCandidate are modelled and validated by '
+        'this correspondence only',
+        'the linter is an oracle: package path per content and the content after non-moving fixes; the directory-package-mismatch rule itself '
+        '(last n directory components vs package path) is modelled and validated through the binary',
+        'file system: regular files and directories only; permissions, symlinks, concurrent modification are outside the model',
+        'config.GetPotentialRoots is taken as observed (called in-process on the same workspace); the snapshot predicate uses the declared roots instead',
+    ])
